@@ -462,6 +462,7 @@ def run(run):
     extra = [] if T else [set(range(MAXA)), {i: None for i in range(MAXA)}, set(range(MAXA - 1)), {str(i): i for i in range(MAXA)}]
     oracle(run, reg, vals + extra, bads, d18)
     lap('oracle')
+    SL.registry_unit(run, 400 if run.thorough() else 80)
     run.rules.append(RULE)
 
 
